@@ -44,6 +44,8 @@ def run(cx):
     packet_ack_exact(cx, "C11.r")
     from props.shared import frame_forward_exact
     frame_forward_exact(cx, "C11.t")
+    from props.shared import half_connection_accept_exact
+    half_connection_accept_exact(cx, "C11.u")
     # a lost fragment that counts as acknowledged is never resent; the resync that follows skips the Reliable packet
     from props.C04 import inst_fragment_flags
     inst_fragment_flags(cx, "C11.s")
